@@ -3,6 +3,7 @@ import Tetl.Proto
 import Tetl.C18.Model
 import Tetl.C18.Spec
 import Tetl.C18.Gen
+import Tetl.C18.GenW
 namespace Tetl.C18.Driver
 open Tetl Tetl.Proto
 
@@ -45,6 +46,19 @@ def ctypeG (f : String) (c : Int) : Option String :=
   | "ispunct" => some (b (Gen.ispunct c)) | "isspace" => some (b (Gen.isspace c))
   | "isupper" => some (b (Gen.isupper c)) | "isxdigit" => some (b (Gen.isxdigit c))
   | "tolower" => some (toString (Gen.tolower c)) | "toupper" => some (toString (Gen.toupper c))
+  | _ => none
+
+def wctypeG (f : String) (c : Nat) : Option String :=
+  let b (x : Int) : String := fmtBool (x != 0)
+  let ci : Int := c
+  match f with
+  | "iswalnum" => some (b (GenW.iswalnum ci)) | "iswalpha" => some (b (GenW.iswalpha ci))
+  | "iswblank" => some (b (GenW.iswblank ci)) | "iswcntrl" => some (b (GenW.iswcntrl ci))
+  | "iswdigit" => some (b (GenW.iswdigit ci)) | "iswgraph" => some (b (GenW.iswgraph ci))
+  | "iswlower" => some (b (GenW.iswlower ci)) | "iswprint" => some (b (GenW.iswprint ci))
+  | "iswpunct" => some (b (GenW.iswpunct ci)) | "iswspace" => some (b (GenW.iswspace ci))
+  | "iswupper" => some (b (GenW.iswupper ci)) | "iswxdigit" => some (b (GenW.iswxdigit ci))
+  | "towlower" => some (toString (GenW.towlower ci)) | "towupper" => some (toString (GenW.towupper ci))
   | _ => none
 
 def ctypeS (f : String) (c : Int) : Option String :=
@@ -97,9 +111,9 @@ def step (_ : Unit) (l : Line) : Unit × String :=
   | "wctype" =>
     match l.str? "f", l.nat? "c" with
     | some f, some c =>
-      match wctypeM f c, wctypeS f c with
-      | some m, some s => out m s
-      | _, _ => bad
+      match wctypeM f c, wctypeS f c, wctypeG f c with
+      | some m, some s, some g => if g == m then out m s else out s!"{m}!gen={g}" s
+      | _, _, _ => bad
     | _, _ => bad
   | "strlen" =>
     match l.natList? "s", l.nat? "off" with
